@@ -1,5 +1,6 @@
 // DOM interpreter class (shared by the per-allocator translation units; see prof_dom.cc)
 #pragma once
+#include <functional>
 #include <memory>
 #include <set>
 
@@ -281,7 +282,9 @@ struct DomExec {
     for (int i = 0; i < NSLOT; i++)
       if (flmask & (1 << slots[i].flavour)) new_doc(slots[i], (ownmask >> i) & 1);
     for (int i = 0; i < NWB; i++) wb[i] = new WriteBuffer();
-    g_tight_growth = (int)plan.K("tight_growth", 0);
+    // exact-fit growth makes every Grow a realloc (which SimMem usually moves): quadratic in the output size, so it is not
+    // combined with the plans that build containers of 60000+ elements
+    g_tight_growth = plan.K("big", 0) == 2 ? 0 : (int)plan.K("tight_growth", 0);
 
     for (size_t i = 0; i < plan.ops.size(); i++) {
       const Op& op = plan.ops[i];
@@ -437,6 +440,7 @@ struct DomExec {
     auto a = resolve(static_cast<N&>(d), s.m, op.S(0));
     auto b = resolve(static_cast<M&>(e), o.m, op.S(1));
     const N& na = *a.n; const M& nb = *b.n;
+    if (a.m->max_object_size() > 3000 && b.m->max_object_size() > 3000) return false;   // operator== is quadratic in the member count without a map: minutes for 60000+ members
     bool r1 = (na == nb), r2 = (nb == na), r3 = (na != nb), r4 = (na == na), r5 = (nb == nb);
     ob = std::string("eq") + (r1 ? '1' : '0');
     if (!(chk & CHK_EQ)) return true;
@@ -920,7 +924,11 @@ struct DomExec {
     if (scratch.HasParseError()) violate("model", site("roundtrip_parse"), "library rejected its own serialised text: " + model::printable(bytes, 300));
     if (!m.has_dup_keys_deep()) {
       const N& cn = n;
-      if (!(cn == static_cast<const NSim&>(scratch)) || !(static_cast<const NSim&>(scratch) == cn)) violate("model", site("roundtrip_equal"), "Parse(Serialize(doc)) != doc: " + model::printable(bytes, 300));
+      // operator== looks every member of the left side up in the right side: linear per lookup without a map. For objects of
+      // thousands of members the comparison is made one way only, against a right side that has a lookup map
+      bool large = m.max_object_size() > 3000;
+      if (large) { std::function<void(NSim&)> maps = [&](NSim& x) { if (x.IsObject()) { if (x.Size() > 3000) x.CreateMap(scratch.GetAllocator()); for (auto it = x.MemberBegin(); it != x.MemberEnd(); ++it) maps(it->value); } else if (x.IsArray()) for (auto it = x.Begin(); it != x.End(); ++it) maps(*it); }; maps(static_cast<NSim&>(scratch)); }
+      if (!(cn == static_cast<const NSim&>(scratch)) || (!large && !(static_cast<const NSim&>(scratch) == cn))) violate("model", site("roundtrip_equal"), "Parse(Serialize(doc)) != doc: " + model::printable(bytes, 300));
     }
     std::string again = scratch.Dump();
     if (again != bytes) violate("model", site("idempotent"), "re-serialising the parsed-back document gives different bytes: " + model::printable(bytes, 200) + " vs " + model::printable(again, 200));
